@@ -545,6 +545,11 @@ def init(table, reload=False):
     assert ('density' in table.properties and 'mass' in table.properties), \
         "Neutron table requires mass and density properties"
 
+    # The class-level defaults below replace the delayed loader, so make sure
+    # the public table is loaded before a private table installs them.
+    if table is not default_table():
+        init(default_table())
+
     # Defaults for missing neutron information
     missing = Neutron()
     Isotope.neutron = missing
